@@ -204,6 +204,13 @@ def main():
                        ("allsections-customs", dict(base_all, **{"__choices": {"custom": [{"at": 0, "name": "", "payload": []}, {"at": 2, "name": "", "payload": [1, 2, 3]},
                                                                                           {"at": 5, "name": "x", "payload": []}, {"at": 7, "name": "n" * 300, "payload": [0] * 40},
                                                                                           {"at": 99, "name": "", "payload": []}]}}))]
+        # name sections that are misplaced (before the functions they name), name functions that do not exist, end in the middle of an
+        # entry, announce more than they hold: a custom section's contents and placement never invalidate the module, and -g reads them
+        NAMEPAYLOADS = [("first", 0, [1, 5, 1, 0, 2, 0x66, 0x30]), ("index", 99, [1, 5, 1, 0xE7, 0x07, 2, 0x66, 0x30]), ("cut", 99, [1, 7, 1, 0]), ("count", 99, [1, 3, 9, 0, 0]),
+                        ("subsize", 99, [1, 50, 1, 0, 2, 0x66, 0x30]), ("ff", 99, [0xFF] * 6), ("mid", 5, [1, 5, 1, 0x7F, 2, 0x66, 0x30]), ("empty", 3, []),
+                        ("namelen", 99, [1, 4, 1, 0, 0xFF, 0x66]), ("locals", 99, [2, 6, 1, 0, 1, 7, 1, 0x78])]
+        for tag_, at_, pl_ in NAMEPAYLOADS:
+            mods.append(("allsections-name-" + tag_, dict(base_all, **{"__choices": {"custom": [{"at": at_, "name": "name", "payload": pl_}]}})))
         for name, m in mods:
             ch = m.get("__choices")
             if ch:
@@ -214,6 +221,10 @@ def main():
             for o in option_vectors(rng, nfuncs, tier):
                 for form in rng.sample(["plain", "dotdir", "abs", "nested"], 2 if tier == "quick" else 4):
                     jobs.append((name, data, len(data), "valid", o, form))
+            if name.startswith("allsections-name-"):
+                for f_ in (0, 1):
+                    for mflag in (False, True):
+                        jobs.append((name, data, len(data), "valid", {"t": 2, "f": f_, "p": False, "g": True, "m": mflag, "d": "arrays", "c": False}, "plain"))
             # the module arrives through a pipe (cat m.wasm | w2c2 /dev/stdin out.c) or a FIFO: short ones and ones of many kilobytes
             if name in ("allsections", "allsections-padded") or len(data) > 6000:
                 for form in ("pipe", "fifo"):
